@@ -13,7 +13,7 @@ if [ "$1" = "-e" ]; then
   sed -i "$2" "$wt/$3" || exit 3
   shift 3
 else
-  git -C "$wt" apply "$(readlink -f "$1")" 2>/dev/null || git -C "$wt" apply --3way "$(readlink -f "$1")" 2>/dev/null || patch -d "$wt" -p1 --fuzz=3 -s < "$(readlink -f "$1")" || { echo "patch does not apply"; exit 3; }
+  git -C "$wt" apply "$(readlink -f "$1")" 2>/dev/null || patch -d "$wt" -p1 --fuzz=3 -s -r - < "$(readlink -f "$1")" || { echo "patch does not apply"; exit 3; }
   shift 1
 fi
 [ "$1" = "--" ] && shift
